@@ -17,10 +17,20 @@ CLAIMED = {
             "declined: SciPy's own results"),
     "C05": ("role/axis type checking (E/N units of measure) + projection-label dataflow over grid/scatter/profile paths",
             "declined: the predicted values"),
+    "C06": ("loop-carried dataflow (prev/mu terms) through Chain.fit, guard/accumulation structure of Chain.predict, zip alignment in Vector, residual form and return identity in filter",
+            "declined: 'prediction + last residual = data' as a numeric identity"),
     "C07": ("rational normal forms of spacing_to_size/shape_to_spacing/pixel shift/profile_coordinates matched path-by-path with transcribed docstring formulas; role/axis typing of grid_coordinates",
             "declined: that linspace hits the bounds, round() at exact .5 ties, floating-point effects of huge offsets"),
     "C08": ("forwarding/literal checks of the pixel-registered centre grid, role agreement of k-d tree and query, tuple-position and flatten-order checks",
             "declined: nearest centre = containing block (geometry of rectangular Voronoi cells), points outside the region"),
+    "C09": ("reader/writer key-format agreement, loop-index alignment of weights/values/components, group order vs sorted unique labels, drop_coords slicing, return arity",
+            "declined: the numeric value of the reductions; pandas groupby/index semantics are a library model"),
+    "C10": ("guard-polarity analysis of the three aggregation paths, reader/writer agreement of columns and tuple positions, normal forms of the weight formulas, store analysis, effect analysis",
+            "declined: ddof of pandas' variance, the (0,1] range and 'some weight equals 1' (arithmetic consequences)"),
+    "C11": ("provenance dataflow of every yielded test set (pre-image of block ids under the block labels), delegation of the complement to scikit-learn, fold provenance, forwarding, argmin, RNG who-may-call",
+            "declined: non-empty folds (an empty first fold is possible on the pinned tree - value-level defect of partition_by_sum, out of static reach), balance quality, exact sizes"),
+    "C12": ("TRAIN/TEST provenance labels at fit/score sinks, clone-per-split and single-use checks, guard polarity of metric selection, loop-index alignment in the scorer, argmax/refit in SplineCV, "
+            "forwarding completeness, estimator-protocol who-may-call, effect analysis of dispatched tasks", "declined: metric values"),
     "C13": ("role/axis typing of bounds and comparisons, normal forms of get_region/pad_region, predicate-tree analysis of inside, out= buffer liveness, validation reachability",
             "declined: containment of generated nodes (semantics of uniform/linspace)"),
     "C14": ("normal form of the shrunk centre region, literal/operator checks of the closed square ball query, index-shape and flatten-order checks, rejection guards",
